@@ -12,6 +12,7 @@ import (
 	"net"
 	"os"
 	"path/filepath"
+	"regexp"
 	"runtime"
 	"sort"
 	"strings"
@@ -400,6 +401,35 @@ func (e *engine) harvest() OStep {
 		st.rawEvs = evs
 	}
 	return st
+}
+
+// goroutines started by a service's Handle (the event pumps of ftp and smtp)
+var reHandleChild = regexp.MustCompile(`created by github\.com/honeytrap/honeytrap/services/[^\s]*\.Handle `)
+
+func handleChildren() int {
+	buf := make([]byte, 1<<20)
+	for {
+		n := runtime.Stack(buf, true)
+		if n < len(buf) {
+			return len(reHandleChild.FindAll(buf[:n], -1))
+		}
+		buf = make([]byte, 2*len(buf))
+	}
+}
+
+// drain ends every session of the scenario and waits until every handler has returned and every
+// goroutine a handler started (event pump) has finished: then nothing can be recorded any more.
+// This is a condition on the program's state, not a waiting time, so it holds on a loaded machine.
+func (e *engine) drain() string {
+	e.closeAll()
+	t0 := time.Now()
+	for atomic.LoadInt32(&e.live) > 0 || handleChildren() > 0 {
+		if time.Since(t0) > stepDeadline {
+			return fmt.Sprintf("after all connections were closed %d handlers and %d goroutines started by handlers are still running", atomic.LoadInt32(&e.live), handleChildren())
+		}
+		schedBarrier(2)
+	}
+	return ""
 }
 
 func (e *engine) closeAll() {
